@@ -119,7 +119,31 @@ func ruleC02Scan(p *Prog, r *Res) {
 				if isFieldSel(g.Pkg.TypesInfo, base, "resultData", "streams") {
 					writers++
 					okw := g.Lit == cloLit
-					r.Check(okw, rule2, "store to resultData.streams in "+g.Key(), p.Pos(as), "inside filterAndAddToResult", "resultData.streams is written outside filterAndAddToResult: a second way for a stream to enter (or leave) the result bypasses limit/sort/group bookkeeping")
+					if !okw && g.Lit == nil && g.Decl != nil && g.Decl.Recv != nil {
+						// a method of resultData that only the owner closure calls is part of the owner
+						if rn := namedOf(recvTypeOfFn(g)); rn != nil && rn.Obj().Name() == "resultData" {
+							nCalls, allInside := 0, true
+							gobj, _ := g.Pkg.TypesInfo.Defs[g.Decl.Name].(*types.Func)
+							for _, h := range p.FnList {
+								if h.Pkg != g.Pkg || h.Body() == nil {
+									continue
+								}
+								inspectShallow(h.Body(), func(y ast.Node) bool {
+									if c, ok := y.(*ast.CallExpr); ok {
+										if fn := p.Callee(h.Pkg, c); fn != nil && gobj != nil && fn.Origin() == gobj {
+											nCalls++
+											if h.Lit != cloLit {
+												allInside = false
+											}
+										}
+									}
+									return true
+								})
+							}
+							okw = nCalls > 0 && allInside
+						}
+					}
+					r.Check(okw, rule2, "store to resultData.streams in "+g.Key(), p.Pos(as), "inside filterAndAddToResult (or a resultData method only it calls)", "resultData.streams is written outside filterAndAddToResult: a second way for a stream to enter (or leave) the result bypasses limit/sort/group bookkeeping")
 				}
 			}
 			return true
